@@ -548,6 +548,27 @@ func rebuild(root, cut *node, a assignment) variant {
 	return variant{cp(root), na}
 }
 
+// classSet: the operator classes occurring in a tree, sorted.
+func classSet(t *node) string {
+	set := map[string]bool{}
+	var walk func(x *node)
+	walk = func(x *node) {
+		if x.op != nil {
+			set[className(x.op)] = true
+			for _, c := range x.kids {
+				walk(c)
+			}
+		}
+	}
+	walk(t)
+	var cs []string
+	for c := range set {
+		cs = append(cs, c)
+	}
+	sort.Strings(cs)
+	return strings.Join(cs, "+")
+}
+
 // findingKey names the violated sentence of the table: (outer class, operand position, inner
 // class), coarsened where the statement itself speaks about a whole group.
 func findingKey(clause string, e edge) string {
@@ -565,6 +586,10 @@ func findingKey(clause string, e edge) string {
 		return clause + ":" + className(p) + "/" + posName(e.parent, e.pos) + ":concat"
 	case p.cls == clsPow && e.pos == 1 && c.kind == kPrefix:
 		return clause + ":pow/R:prefix-operator"
+	case c.kind == kAssign && p.cls != clsPow && p.kind != kAssign:
+		// "assignment is right-associative and lowest": a op $v = e is a op ($v = e) whatever op is
+		// (** keeps its own key: its operands are parsed below the level that recognises assignments)
+		return clause + ":assign-as-last-operand"
 	}
 	return clause + ":" + e.key()
 }
@@ -641,7 +666,7 @@ func (w *worker) fail(p *pending, clause string, pr printing, culprits []edge, s
 	case len(culprits) > 0:
 		key = findingKey(clause, culprits[0])
 	default:
-		key += "unlocalised:" + p.t.sigText()
+		key += "unlocalised:" + classSet(p.t)
 	}
 	lt := func(n *node) string {
 		if p.a.useVars {
